@@ -11,6 +11,7 @@ CONSTANTS
   Required = {"temp","active","inactive","native","binned"}
   Optional = {"cond"}
   LocalQs = {"cond"}
+  Ordered = FALSE
   Export = FALSE
 INVARIANT EveryStatisticIsCombined
 CONSTRAINT Emit
